@@ -182,7 +182,18 @@ fn verif_n3_binary() {
 }
 
 fn subst<C: CellType>(t: &mut Tally, w: &str) {
-    let fam = family::<C>();
+    let mut fam = family::<C>();
+    // monomials of degree 3 and 4 with repeated variables in every position
+    {
+        let x = Expr::<C>::var(0);
+        let y = Expr::<C>::var(1);
+        let ms = [x.mul(&x).mul(&x), x.mul(&y).mul(&y), x.mul(&x).mul(&y).mul(&y), y.mul(&y).mul(&y), x.mul(&x).mul(&x).mul(&x), y.mul(&x).mul(&y), x.mul(&y).mul(&y).mul(&y)];
+        for (k, m) in ms.iter().enumerate() {
+            fam.push(m.clone());
+            fam.push(m.mul(Expr::val(C::from_u8(3))).add(Expr::val(C::from_u8(5))));
+            fam.push(m.add(&ms[(k + 2) % ms.len()]).add(&x));
+        }
+    }
     let vals = cells::<C>();
     // substitutions: [0] := s0, [1] := s1 with s0, s1 from a small set of expressions over [0], [1]
     let x = Expr::<C>::var(0);
